@@ -88,7 +88,8 @@ func (m *Model) Infer(t *syntax.Transaction) {
 			t.Bookings[i].Credit = m.inferAccount(t, &t.Bookings[i], debit)
 		}
 		if debit == m.account {
-			t.Bookings[i].Debit = m.inferAccount(t, &t.Bookings[i], credit)
+			// infer against the credit account as it is now (it may just have been replaced)
+			t.Bookings[i].Debit = m.inferAccount(t, &t.Bookings[i], t.Bookings[i].Credit.Extract())
 		}
 	}
 }
